@@ -19,6 +19,7 @@ THEOREMS = [
     "PV.WiringMpe.C11_plscf_mpe_stores",
     "PV.WiringClass.C11_mpe_inherited",
     "PV.WiringCalls.C11_mpe_calls",
+    "PV.WiringMpe.C11_mpe_stores_exact",
     "PV.C11.C11_whole",
     "PV.C11.C11_nearest",
     "PV.C11.C11_only_if_close",
